@@ -3,6 +3,8 @@
 package wm
 
 import (
+	"strings"
+
 	"verifsim/internal/core"
 	"verifsim/internal/findings"
 	"verifsim/internal/mach"
@@ -85,6 +87,16 @@ var triggers = []trigger{
 		id: "KF-W4", props: wmProps,
 		match: func(c *core.Case, f *features, class string) bool {
 			return c.Cfg.V >= mach.MVP63 && f.loadDestOverwritten && isMismatch(class)
+		},
+	},
+	{
+		// MVP-6.3/7.x/8: a conditional branch commits the renamed registers while
+		// an OLDER instruction still waits for a load; a younger writer of one of
+		// its source registers (write-after-read) becomes visible to it.
+		id: "KF-W8", props: wmProps,
+		match: func(c *core.Case, f *features, class string) bool {
+			return c.Cfg.V >= mach.MVP63 && f.warAfterLoadUse && f.condBranches >= 1 &&
+				(isMismatch(class) || strings.HasPrefix(class, "panic:risc.(*Context).WriteMemory"))
 		},
 	},
 	{
